@@ -327,6 +327,35 @@ let () =
     let (_, o2) = enc_run enc_zero (acts_of_toks tb) in
     String.concat " " (List.filter_map str_of_obs o1) ^ " || " ^ String.concat " " (List.filter_map str_of_obs o2))
 
+
+(* ---- colours ---- *)
+let () =
+  let encs o = match o with None -> "-" | Some l -> hex_of_bytes l in
+  reg "C1" (fun a -> tok_of_color (decode_color1 (z_of_dec (List.nth a 0))));
+  reg "CF" (fun a ->
+    match dec_color_form (z_of_dec (List.nth a 0)) (bytes_of_hex (List.nth a 1)) with
+    | None -> "- 0"
+    | Some (c, n) -> tok_of_color c ^ " " ^ string_of_int (int_of_nat n));
+  reg "CE" (fun a ->
+    let c = color_of_tok (List.nth a 0) in
+    let (r, ok) = color_rgba c in
+    String.concat " " [
+      "e1=" ^ encs (match encode1 c with None -> None | Some x -> Some [x]);
+      "e2=" ^ encs (encode2 c); "e3=" ^ encs (encode3direct c); "e4=" ^ encs (encode4 c);
+      "e3i=" ^ encs (encode3indirect c);
+      "rgba=" ^ hex_of_rgba r ^ "," ^ (if ok then "true" else "false") ]);
+  reg "RS" (fun a ->
+    hex_of_rgba (resolve (pal_of_tok (List.nth a 1)) (pal_of_tok (List.nth a 2)) (color_of_tok (List.nth a 0))));
+  reg "EGR" (fun a ->
+    match List.map z_of_dec a with
+    | [cb; nb; sh; sp; ns] -> hex_of_rgba (encode_gradient cb nb sh sp ns)
+    | _ -> failwith "EGR");
+  reg "DGR" (fun a ->
+    let c = rgba_of_hex (List.nth a 0) in
+    let g = decode_gradient c in
+    Printf.sprintf "%d %d %d %d %d premul=%b grad=%b" (int_of_z g.gp_cbase) (int_of_z g.gp_nbase) (int_of_z g.gp_shape)
+      (int_of_z g.gp_spread) (int_of_z g.gp_nstops) (valid_premul c) (valid_gradient c))
+
 let () =
   let out = Buffer.create (1 lsl 16) in
   (try
